@@ -1,5 +1,5 @@
 """C08 — concurrent requests do not influence one another."""
-import os, random, re, threading, time
+import os, random, re, socket, threading, time
 from .servebase import *
 import netprobe, vlib
 
@@ -101,19 +101,52 @@ class P(ServeProp):
                 for wave in range(3 if tier == "quick" else 6):
                     k = rnd.choice([8, 16, 32, 64])
                     picks = [rnd.randrange(len(reqs)) for _ in range(k)]
-                    res = [None] * k
-                    bar = threading.Barrier(k)
-                    def go(i):
-                        try:
-                            c = s.conn(10.0)
-                            bar.wait(timeout=10)
-                            if rnd.random() < 0.3: time.sleep(rnd.random() * 0.01)
-                            c.sendall(reqs[picks[i]])
-                            res[i] = netprobe.recv_all(c, 10.0); c.close()
-                        except Exception:
-                            res[i] = None
-                    th = [threading.Thread(target=go, args=(i,)) for i in range(k)]
-                    [t.start() for t in th]; [t.join() for t in th]
+                    def run_wave():
+                        res = [None] * k
+                        dropped = [False] * k         # the server closed or reset the connection without a single byte: an event, not a time-out
+                        bar = threading.Barrier(k)
+                        def go(i):
+                            try:
+                                c = s.conn(10.0)
+                                bar.wait(timeout=10)
+                                if rnd.random() < 0.3: time.sleep(rnd.random() * 0.01)
+                                c.sendall(reqs[picks[i]])
+                            except Exception:
+                                res[i] = None
+                                return
+                            out = b""
+                            c.settimeout(10.0)
+                            try:
+                                while True:
+                                    b = c.recv(65536)
+                                    if not b:
+                                        dropped[i] = (out == b"")
+                                        break
+                                    out += b
+                            except socket.timeout:
+                                pass
+                            except OSError:
+                                dropped[i] = (out == b"")
+                            res[i] = out
+                            try: c.close()
+                            except OSError: pass
+                        th = [threading.Thread(target=go, args=(i,)) for i in range(k)]
+                        [t.start() for t in th]; [t.join() for t in th]
+                        return res, dropped
+                    res, dropped = run_wave()
+                    if any(dropped):
+                        # a connection that is closed without an answer while others are served: repeated once (the same wave), and reported
+                        # only when it happens again and the same request alone is answered - alone, every one of these requests is
+                        res2, dropped2 = run_wave()
+                        if any(dropped2):
+                            i = dropped2.index(True)
+                            again = canon_resp(s.request(reqs[picks[i]]))
+                            if again == serial[picks[i]] and s.alive():
+                                fails.append(("a connection was closed without an answer while %d connections were in flight (-t=%d, in two waves in a row); alone, the same request is answered" % (k, N),
+                                              "connection-dropped-under-concurrency", None,
+                                              {"request": reqs[picks[i]][:200].decode("latin-1"), "threads": N, "in_flight": k, "dropped_in_first_wave": sum(dropped), "dropped_in_second_wave": sum(dropped2),
+                                               "serial": (serial[picks[i]] or b"")[:200].decode("latin-1")}))
+                                break
                     for i in range(k):
                         got = canon_resp(res[i])
                         compared += 1
